@@ -118,9 +118,9 @@ CHECKS["C13"] = {
     "text": "Theorems (Coq) over MuModel: after a release's last successful word CAS only waiter records are touched (C13_last_cas), "
             "uncontended releases end in that very step, and between an early release and that last CAS the mutex is pinned by a non-empty "
             "queue/wake list whose members are still inside nsync_mu_lock (C13_pinned), for any threads/programs/schedules.  The refcount "
-            "pattern and the waker-vs-wait_n half are run against an arena that unmaps freed blocks and a dead-stack-frame check.  Third session: the reference-count theorem with an explicit free over MuRefModel (C13r_no_touch_after_free, C13r_tail_after_free, C13r_reader_variant; in-lock read-mode decrement refuted as a client error), and C13sw_no_dead_touch for cancellable waits' on-stack records (SemWaitModel).  The audit of C13r found F15 (stale MU_WAITING from cv.c's wake_waiters lets the pattern free the mutex under a thread still in nsync_mu_unlock_slow_): reproduced by the scripted scenario refcount_cv and repaired in /repo 0f631a1.",
+            "pattern and the waker-vs-wait_n half are run against an arena that unmaps freed blocks and a dead-stack-frame check.  Third session: the reference-count theorem with an explicit free over MuRefModel (C13r_no_touch_after_free, C13r_tail_after_free, C13r_reader_variant; in-lock read-mode decrement refuted as a client error), and C13sw_no_dead_touch for cancellable waits' on-stack records (SemWaitModel).  The audit of C13r found F15 (stale MU_WAITING from cv.c's wake_waiters lets the pattern free the mutex under a thread still in nsync_mu_unlock_slow_): reproduced by the scripted scenario refcount_cv and repaired in /repo 0f631a1; the theorem WITH cv traffic is C13x_no_touch_after_free over MuXRefModel (mutex + cv waits + nsync_wait_n records + non-user signallers), and C13x_old_code_refuted shows the pre-repair release step reaches a touch-after-free on the F15 schedule.",
     "design_ref": "DESIGN.md section 4, C13",
-    "note": "C13r is over the condition-free mutex without cv traffic; the pattern with cv waits / nsync_mu_wait on the same mutex is decided by the arena oracle (refcount_cv, refcount VRT_MUWAIT); waker half vs nsync_wait_n: oracle (coverage.partial).",
+    "note": "The pattern around nsync_mu_wait on the same mutex is decided by the arena oracle (refcount VRT_MUWAIT, mix_all); waker half vs nsync_wait_n: oracle (coverage.partial).",
     "technique": "Coq invariants over source-regenerated transition systems (mutex, refcount wrapper, sem_wait) + lock-step trace inclusion + arena/dead-stack oracles on schedules",
 }
 CHECKS["C14"] = {
@@ -167,7 +167,7 @@ CHECKS["C06"] = {
             "whose condition is false under a truth-preserving eq (C06_scan_sound), and whenever MU_ALL_FALSE is set with no writer, every queued "
             "condition is false in the current state (C06_allfalse_sound); no reachable quiescent world has the mutex free and a queued waiter whose "
             "condition is true (C06_no_stuck, via the designated-waker invariant HA/HB/HC) -- any threads / programs / schedules.  "
-            "Lock-step replay with queue and ring snapshots; termination + evaluation oracles over conditional-wait scenarios.",
+            "Lock-step replay with queue and ring snapshots; termination + evaluation oracles over conditional-wait scenarios.  Third session: 'alongside cv waiters' -- MuAllModel wraps MuWaitModel with cv waits, wake_waiters site by site (transfers landing while a scanner has swapped the queue out and released the spinlock) and nsync_wait_n records, tied in lock-step (muall_replay); proved there: exclusion, evaluation under the lock, and that a transfer inside a scanner window keeps MU_WAITING (Properties_C06a); ring invariant / MU_ALL_FALSE / no-lost-wake-up with cv waiters: exploration of the extracted model and scenario oracles only.",
     "design_ref": "DESIGN.md section 4, C06",
     "note": "no lost wake-up is a theorem on the model of the REPAIRED code (it was false before: F13, F14); fair-schedule liveness and unlock_without_wakeup's clause are oracle-decided (coverage.partial).",
     "technique": "Coq invariants and pure-function lemmas over source-regenerated model + lock-step trace inclusion + scenario oracles",
